@@ -13,8 +13,16 @@ CONSTANTS
   Http10NoChunkedReq = TRUE
   Expect10Proceeds = TRUE
   RefusedPrepareCleansWriter = TRUE
+  FailedPrepareCleansWriter = TRUE
+  WithheldBodyCloses = TRUE
+  HostKeptOnRetry = TRUE
+  CutBodyCloses = TRUE
+  CancelCloses = TRUE
+  FreshHeaderContainer = TRUE
 INVARIANT FramingTruthful
 INVARIANT ReceiverFollowsRfc
 INVARIANT CloseAgree
 INVARIANT NoHang
+INVARIANT UnfinishedNeverReused
+INVARIANT RetrySameRequest
 CHECK_DEADLOCK FALSE
